@@ -1231,13 +1231,13 @@ Qed.
 Section Finish.
 Variables (node kn : Z).
 
-Lemma tree_remove_finish h1 zs q c k p dir f gf :
+Lemma tree_remove_finish fuel h1 zs q c k p dir f gf :
   let F := BN BL q c k BL in
-  RAll kn (At zs F) -> Rrel node kn h1 (At zs F) p q dir f gf -> (length zs < 199)%nat ->
+  RAll kn (At zs F) -> Rrel node kn h1 (At zs F) p q dir f gf -> (length zs < fuel)%nat ->
   let h2 := set_child h1 p (child h1 p true =? q) (child h1 q (child h1 q false =? 0)) in
   let h3 := if f =? q then h2
             else let n := if gf =? 0 then HEAD else gf in
-                 relink_loop 200 h2 node n q f (if n =? HEAD then true else key h2 n <? key h2 node) in
+                 relink_loop fuel h2 node n q f (if n =? HEAD then true else key h2 n <? key h2 node) in
   let W := if k =? kn then plug zs BL else plug (zrename kn q k zs) BL in
   rep h3 (child h3 HEAD true) W /\ NoDup (bids W) /\ (forall i, In i (bids W) -> 1 < i).
 Proof.
@@ -1319,9 +1319,9 @@ Proof.
     assert (Nmid : Forall (fun f0 => f_id f0 <> node) zmid).
     { rewrite Forall_forall. intros x Hx E. rewrite Ezs, Eza, map_app in Nids. cbn [map] in Nids. apply NoDup_remove_2 in Nids. apply Nids.
       apply in_or_app. right. rewrite map_app. apply in_or_app. left. rewrite Effn, <- E. apply in_map. exact Hx. }
-    assert (Hlm : (length zmid < 200)%nat).
+    assert (Hlm : (length zmid < fuel)%nat).
     { rewrite Ezs, Eza in Hlen. rewrite !app_length in Hlen. cbn [length] in Hlen. rewrite app_length in Hlen. lia. }
-    rewrite (relink_walk h2 node kn q ltac:(rewrite Hk2; exact Hkn) zmid zpost 200 m2 Hlm Smid Zpost Dmid Nmid).
+    rewrite (relink_walk h2 node kn q ltac:(rewrite Hk2; exact Hkn) zmid zpost fuel m2 Hlm Smid Zpost Dmid Nmid).
     rewrite <- Eza.
     (* its effect *)
     assert (Z1e : repz h2 (zb ++ ff :: za) 0) by (rewrite <- Ezs; exact Z1).
@@ -1346,14 +1346,14 @@ Qed.
 End Finish.
 
 (* ------------------------------------------------------------------ ArenaTree::remove as a whole *)
-Theorem tree_remove_refines t T b node :
+Theorem tree_remove_refines_f fuel t T b node :
   rep (heap t) (root t) T -> NoDup (bids T) -> (forall i, In i (bids T) -> 1 < i) -> In node (bids T) ->
-  bbh T = Some b -> sortedb (bkeys T) = true -> (bheight T < 98)%nat ->
+  bbh T = Some b -> sortedb (bkeys T) = true -> (2 * bheight T + 2 < fuel)%nat ->
   let kn := key (heap t) node in
-  let t' := tree_remove t node in
-  exists R, zremove kn 200 T = Some R /\ rep (heap t') (root t') R /\ NoDup (bids R) /\ (forall i, In i (bids R) -> 1 < i).
+  let t' := tree_remove_f fuel t node in
+  exists R, zremove kn fuel T = Some R /\ rep (heap t') (root t') R /\ NoDup (bids R) /\ (forall i, In i (bids R) -> 1 < i).
 Proof.
-  intros Hr Hnd Hpos Hin Hb Hs Hh kn. cbn zeta. unfold tree_remove.
+  intros Hr Hnd Hpos Hin Hb Hs Hh kn. cbn zeta. unfold tree_remove_f.
   set (h0 := hset (heap t) HEAD (mktn 0 (root t) false 0)).
   assert (Hh0 : hget h0 HEAD = mktn 0 (root t) false 0) by (unfold h0; apply hget_hset_same; unfold HEAD; lia).
   assert (Ho0 : forall i, i <> HEAD -> hget h0 i = hget (heap t) i) by (intros i Hi; unfold h0; apply hget_hset_other; congruence).
@@ -1365,18 +1365,18 @@ Proof.
     - assert (Er : child h0 HEAD true = root t) by (unfold child; rewrite Hh0; reflexivity). rewrite Er.
       apply (rep_frame (heap t)); [|exact Hr]. intros i Hi. apply Ho0. specialize (Hpos _ Hi). unfold HEAD. lia.
     - split; [|split; reflexivity]. split; [exact Hnd|]. apply Forall_forall. intros i Hi. specialize (Hpos _ Hi). split; lia. }
-  destruct (remove_loop_sim node kn 200 (AtHead T) h0 0 0 HEAD true 0 0 A R0 ltac:(cbn [rmeasure]; lia))
+  destruct (remove_loop_sim node kn fuel (AtHead T) h0 0 0 HEAD true 0 0 A R0 ltac:(cbn [rmeasure]; lia))
     as (e & h1 & g & p & q & f & gf & dir' & E1 & E2 & R' & Ae & Hn & Ek & Ei).
-  rewrite E2. pose proof (rloop_len kn 200 _ _ A E1) as Hlen. cbn [rplen rmeasure] in Hlen.
+  rewrite E2. pose proof (rloop_len kn fuel _ _ A E1) as Hlen. cbn [rplen rmeasure] in Hlen.
   destruct e as [T'|zs F].
   { exfalso. unfold rstep in Hn. cbn [rdown whole] in *. destruct T'; [rewrite <- Ei in Hin; exact Hin|discriminate]. }
   destruct (end_leaf kn zs F (proj1 Ae) Hn) as (q' & c & k & EF & _). subst F.
   assert (Eq : q = q') by (destruct R' as (_ & _ & _ & _ & Eq & _); exact Eq). subst q'.
-  assert (Hl : (length zs < 199)%nat) by (cbn [rplen] in Hlen; lia).
-  destruct (tree_remove_finish node kn h1 zs q c k p dir' f gf Ae R' Hl) as (F1 & F2 & F3). cbn zeta in F1, F2, F3.
+  assert (Hl : (length zs < fuel)%nat) by (cbn [rplen] in Hlen; lia).
+  destruct (tree_remove_finish node kn fuel h1 zs q c k p dir' f gf Ae R' Hl) as (F1 & F2 & F3). cbn zeta in F1, F2, F3.
   set (h2 := set_child h1 p (child h1 p true =? q) (child h1 q (child h1 q false =? 0))) in *.
   set (h3 := if f =? q then h2
-             else relink_loop 200 h2 node (if gf =? 0 then HEAD else gf) q f
+             else relink_loop fuel h2 node (if gf =? 0 then HEAD else gf) q f
                     (if (if gf =? 0 then HEAD else gf) =? HEAD then true else key h2 (if gf =? 0 then HEAD else gf) <? key h2 node)) in *.
   set (W := if k =? kn then plug zs BL else plug (zrename kn q k zs) BL) in *.
   exists (blacken W). split; [unfold zremove; rewrite E1; reflexivity|].
@@ -1390,6 +1390,15 @@ Proof.
     pose proof (set_red_rep h3 (bid W) false Pr _ _ F1) as Hfin. rewrite Er in Hfin.
     rewrite (recolor_blacken_root W F2 HW) in Hfin. exact Hfin.
 Qed.
+
+Theorem tree_remove_refines t T b node :
+  rep (heap t) (root t) T -> NoDup (bids T) -> (forall i, In i (bids T) -> 1 < i) -> In node (bids T) ->
+  bbh T = Some b -> sortedb (bkeys T) = true -> (bheight T < 98)%nat ->
+  let kn := key (heap t) node in
+  let t' := tree_remove t node in
+  exists R, zremove kn 200 T = Some R /\ rep (heap t') (root t') R /\ NoDup (bids R) /\ (forall i, In i (bids R) -> 1 < i).
+Proof. intros Hr Hnd Hpos Hin Hb Hs Hh. apply (tree_remove_refines_f 200 t T b node); try assumption. lia. Qed.
+
 
 (* ------------------------------------------------------------------ size bounds: the result is not too high for the reading functions *)
 Definition bsize (t : btree) : Z := Z.of_nat (length (bkeys t)).
@@ -1452,4 +1461,30 @@ Proof.
   exists R, b'. split; [exact HR|]. split; [exact Hbr|]. split; [exact Hb'|]. split; [lia|]. split; [exact EkT|]. split; [exact EkR|].
   split; [rewrite EkR; exact HsR|]. split; [exists L, Rr; rewrite EkT, EkR; split; assumption|]. split; [|exact NR].
   intros k0. unfold tree_get. rewrite (get_loop_rep 200 _ _ R k0 HR HhR'), EkR. apply lookup_member; assumption.
+Qed.
+
+(* no bound on the height (see tree_insert_any_height) *)
+Theorem tree_remove_any_height fuel t T b node :
+  rep (heap t) (root t) T -> NoDup (bids T) -> (forall i, In i (bids T) -> 1 < i) -> In node (bids T) ->
+  bbh T = Some b -> sortedb (bkeys T) = true -> (2 * bheight T + 2 < fuel)%nat ->
+  let kn := key (heap t) node in
+  let t' := tree_remove_f fuel t node in
+  exists R b', rep (heap t') (root t') R /\
+    bred R = false /\ bbh R = Some b' /\ Z.of_nat (bheight R) <= 2 * (b' - 1) /\
+    sortedb (bkeys R) = true /\ (exists L Rr, bkeys T = L ++ kn :: Rr /\ bkeys R = L ++ Rr) /\
+    (forall k, lookup R k <> 0 <-> In k (bkeys R)) /\
+    (forall f', (bheight R < f')%nat ->
+       (forall k, get_loop f' (heap t') (root t') k = lookup R k) /\ inorder f' (heap t') (root t') = bflat R) /\
+    NoDup (bids R).
+Proof.
+  intros Hr Hnd Hpos Hin Hb Hs Hh kn. cbn zeta.
+  destruct (tree_remove_refines_f fuel t T b node Hr Hnd Hpos Hin Hb Hs Hh) as (R & HZ & HR & NR & PR). cbn zeta in HZ, HR. fold kn in HZ.
+  assert (Hkin : In kn (bkeys T)) by (apply (rep_key_in (heap t) T (root t) node Hr Hin)).
+  destruct (zremove_correct kn fuel T b Hb Hs Hkin ltac:(lia)) as (R2 & HZ2 & (b' & Hb') & Hbr & L & Rr & E1 & E2 & HsR).
+  rewrite HZ in HZ2. injection HZ2 as <-.
+  destruct (bbh_height R b' Hb') as [Hb1 HhR]. rewrite Hbr in HhR.
+  assert (Hnz : ids_nonzero R = true) by (apply ids_nonzero_of; intros i Hi; specialize (PR i Hi); lia).
+  exists R, b'. split; [exact HR|]. split; [exact Hbr|]. split; [exact Hb'|]. split; [lia|]. split; [exact HsR|].
+  split; [exists L, Rr; split; assumption|]. split; [intros k; apply lookup_member; assumption|]. split; [|exact NR].
+  intros f' Hf'. split; [intros k; apply get_loop_rep; assumption|apply inorder_rep; assumption].
 Qed.
